@@ -51,10 +51,10 @@ void DelT<Custom, Mark>::operator()(NodeT<Custom, Mark>* n) const {
 
 enum ROp : uint8_t {
   R_PUBLISH, R_UNLINK, R_ACQUIRE, R_ACQ_IF_EQ, R_ACQ_IF_NE, R_COPY, R_MOVE, R_COPY_CTOR, R_MOVE_CTOR, R_SWAP, R_RESET,
-  R_SELF_ASSIGN, R_DEREF, R_REGION_ENTER, R_REGION_LEAVE, R_RECLAIM_VIA_COPY, R_NOPS
+  R_SELF_ASSIGN, R_DEREF, R_REGION_ENTER, R_REGION_LEAVE, R_RECLAIM_VIA_COPY, R_RECLAIM_DIRECT, R_NOPS
 };
 static const char* rop_name[] = {"publish", "unlink", "acquire", "acq_if_eq", "acq_if_ne", "copy", "move", "copy_ctor", "move_ctor",
-                                 "swap", "reset", "self_assign", "deref", "region_enter", "region_leave", "reclaim_via_copy"};
+                                 "swap", "reset", "self_assign", "deref", "region_enter", "region_leave", "reclaim_via_copy", "reclaim_direct"};
 struct RInstr {
   uint8_t op, cell, a, b;
 };
@@ -371,6 +371,31 @@ struct Env {
       }
       break;
     }
+    case R_RECLAIM_DIRECT: {
+      // unlink the node that guard slot a holds and retire it through that very guard - no guard is created or re-acquired in between,
+      // so several of these in a row are retirements "back to back" inside one critical region (batch retirement)
+      GPtr& g = guards[in.a];
+      if (!g)
+        break;
+      MPtr expected = g;
+      xrt::op_begin(in.op, true);
+      bool ok = cell.compare_exchange_strong(expected, MPtr(nullptr), std::memory_order_acq_rel, std::memory_order_relaxed);
+      xrt::op_end();
+      rec.end(o);
+      o.r = ok;
+      if (ok) {
+        int64_t id = g->id;
+        o.r2 = id;
+        L.cell_write(ci, raw(MPtr(g)), 0, o.call, o.ret);
+        L.guard_clear(in.a);
+        do_reclaim(g, id ^ 0x55);
+        {
+          xrt::Quiet q; // counters are monitor state
+          counters().add("direct_retirements");
+        }
+      }
+      break;
+    }
     }
     if (!o.done)
       rec.end(o);
@@ -444,7 +469,7 @@ struct Env {
       in.op = r < 18 ? R_PUBLISH : r < 30 ? R_UNLINK : r < 48 ? R_ACQUIRE : r < 54 ? R_ACQ_IF_EQ : r < 58 ? R_ACQ_IF_NE
               : r < 63 ? R_COPY : r < 67 ? R_MOVE : r < 70 ? R_COPY_CTOR : r < 73 ? R_MOVE_CTOR : r < 76 ? R_SWAP
               : r < 83 ? R_RESET : r < 85 ? R_SELF_ASSIGN : r < 91 ? R_DEREF : r < 94 ? R_REGION_ENTER : r < 96 ? R_REGION_LEAVE
-                                                                                                                  : R_RECLAIM_VIA_COPY;
+              : r < 98 ? R_RECLAIM_VIA_COPY : R_RECLAIM_DIRECT;
       if (!allow_regions && (in.op == R_REGION_ENTER || in.op == R_REGION_LEAVE))
         in.op = R_DEREF;
       in.cell = (uint8_t)rng.below((uint32_t)ncells);
@@ -460,6 +485,29 @@ struct Env {
         RInstr& in = prog[prog.size() - 1 - (size_t)i];
         in.op = rng.chance(1, 2) ? R_UNLINK : R_PUBLISH;
       }
+    }
+    // shaped: "batch retirement" - take guards on two or three cells, then unlink and retire the nodes one after the other through those
+    // guards without creating or re-acquiring any guard in between (the thread stays inside one critical region from the first acquire
+    // to the last retirement), while other threads acquire the later nodes between the retirements
+    if (ncells >= 2 && rng.chance(1, 6)) {
+      std::vector<RInstr> batch;
+      int nb = std::min(ncells, (int)NG);
+      nb = rng.range(2, nb);
+      int c0 = (int)rng.below((uint32_t)ncells);
+      if (rng.chance(2, 3)) // make sure there is something to retire: publish into the cells first
+        for (int i = 0; i < nb; ++i)
+          batch.push_back(RInstr{R_PUBLISH, (uint8_t)((c0 + i) % ncells), 0, 0});
+      for (int i = 0; i < nb; ++i)
+        batch.push_back(RInstr{R_ACQUIRE, (uint8_t)((c0 + i) % ncells), (uint8_t)i, 0});
+      if (rng.chance(1, 2))
+        batch.push_back(RInstr{R_DEREF, 0, (uint8_t)rng.below((uint32_t)nb), 0});
+      for (int i = 0; i < nb; ++i)
+        batch.push_back(RInstr{R_RECLAIM_DIRECT, (uint8_t)((c0 + i) % ncells), (uint8_t)i, 0});
+      size_t keep = prog.size() > batch.size() ? prog.size() - batch.size() : 0;
+      size_t at = keep ? rng.below((uint32_t)keep + 1) : 0;
+      prog.resize(keep);
+      prog.insert(prog.begin() + (long)at, batch.begin(), batch.end());
+      return prog;
     }
     // shaped: "hand protection over between guards" — acquire once, then copy to another guard and reset the source,
     // back and forth, while other threads unlink and scan (a scan must never miss an object whose protection moves)
